@@ -7,6 +7,7 @@ Call(g, d, ctx, catch) == [t |-> "call", g |-> g, d |-> d, ctx |-> ctx, catch |-
 Batch(g, ds, ctx, rf, catch) == [t |-> "batch", g |-> g, ds |-> ds, ctx |-> ctx, rf |-> rf, catch |-> catch]
 Res(r) == [t |-> "res", r |-> r]
 Raise(w) == [t |-> "raise", when |-> w]
+Bad(w) == [t |-> "bad", when |-> w]
 
 PFib == << [body |-> <<Call(1, 1, "inherit", FALSE), Call(2, 0, "k1", FALSE), Call(1, 1, "inherit", FALSE)>>],
            [body |-> <<Res(1), Call(2, 1, "clear", TRUE)>>] >>
@@ -17,6 +18,9 @@ PRaise == << [body |-> <<Batch(2, <<1, 0>>, "k2", TRUE, TRUE), Call(2, 0, "inher
 PChain == << [body |-> <<Call(2, 0, "k1", FALSE), Res(2)>>],
              [body |-> <<Batch(3, <<0, 1>>, "inherit", FALSE, FALSE)>>],
              [body |-> <<Res(1), Raise(0)>>] >>
-MCProgs == {PFib, PBatch, PRaise, PChain}
+\* an element whose body returns something that cannot be stored: in a batch slot, caught and uncaught by a caller
+PBad == << [body |-> <<Batch(2, <<0, 1>>, "inherit", FALSE, FALSE), Call(2, 0, "inherit", TRUE), Call(2, 1, "k1", FALSE)>>],
+           [body |-> <<Res(1), Bad(0)>>] >>
+MCProgs == {PFib, PBatch, PRaise, PChain, PBad}
 MCBatchArgs == {<<>>, <<0>>, <<1, 1>>, <<1, 0>>}
 ====
